@@ -148,7 +148,7 @@ func run(e *hx.Env) *hx.Report {
 		}
 	}
 	// ---- generated cases
-	n := e.N(80, 2500)
+	n := e.N(150, 20000)
 	bt := policy.NewBatch(e, rep, prop)
 	var results []*policy.CaseResult
 	var kinds []string
